@@ -557,7 +557,8 @@ SDgetoldattdatainfo(int32 dim_id, int32 sdsid, char *attr_name, int32 *offset, i
         lufbuf = malloc((size_t)len + 1);
         if (lufbuf == NULL)
             HGOTO_ERROR(DFE_NOSPACE, FAIL);
-        Hgetelement(handle->hdf_file, att_tag, att_ref, (uint8 *)lufbuf);
+        if (Hgetelement(handle->hdf_file, att_tag, att_ref, (uint8 *)lufbuf) == FAIL)
+            HGOTO_ERROR(DFE_GETELEM, FAIL);
 
         /*
          * Parse the luf string to obtain the offset/length of the requested luf
